@@ -37,7 +37,7 @@ IL_SCHEDULES = [
 def interleaved_for(case, seed, every):
     """The interleaved group (input only: routing tokens and schedule) attached to a case, or []."""
     w, i = case["w"], case["id"]
-    if not w["ta"] or (i + seed) % every:
+    if not w["ta"] or (i + seed) % every or w.get("strat2", "none") != "none":
         return []
     toks = [g["q"] for g in case["groups"] if g["q"] >= 0]
     if not toks:
@@ -89,8 +89,9 @@ def keys_of(v, vec):
             out.append((cfg + ":stored-replicas-" + k, "routing token %s: the policy's replica map holds %s, Cassandra's placement on the "
                         "ring members (up or down) is %s" % (g["q"], g["realrep"], g["placement"])))
         kinds = set(g["kinds"])
-        desc = "routing token %s: offered %s; up replicas near=%s far=%s (reference %s); predicted %s" % (
-            g["q"], g["got"], g["near"], g["far"], g["reps"], g["predicted"])
+        desc = "routing token %s%s: offered %s; up replicas near=%s far=%s (reference %s); predicted %s" % (
+            g["q"], " (statement on the second keyspace %s %s)" % (w.get("strat2"), dict(zip(w.get("rfdc2", []), w.get("rfn2", []))))
+            if g.get("ks") == 2 else "", g["got"], g["near"], g["far"], g["reps"], g["predicted"])
         if g["realdup"]:
             # the placement code handed the policy a replica list with a host twice (C10): what fails only
             # because of that is inherited; kinds2 = what still fails relative to that list, de-duplicated
@@ -146,7 +147,7 @@ def replay(ctx):
     if not vecs:
         raise vf.Inconclusive("no vectors in %s" % ctx.replay)
     cases = [dict(id=i + 1, w=v["w"], hist=v["hist"],
-                  groups=[dict(q=g["q"], k=g["k"]) for g in v["groups"]] or ([] if v.get("il") else [dict(q=-1, k=2)]),
+                  groups=[dict(q=g["q"], k=g["k"], ks=g.get("ks", 1)) for g in v["groups"]] or ([] if v.get("il") else [dict(q=-1, k=2, ks=1)]),
                   il=[dict(qs=g["qs"], sched=g["sched"]) for g in v.get("il", [])]) for i, v in enumerate(vecs)]
     cp, rp = os.path.join(ctx.tmp, "pcases.ndjson"), os.path.join(ctx.tmp, "presults.ndjson")
     vf.write_ndjson(cp, cases)
@@ -194,7 +195,7 @@ def run(ctx):
         c["id"] = i + 1
     cp = os.path.join(ctx.tmp, "pcases.ndjson")
     il_every = 12 if quick else 4
-    vf.write_ndjson(cp, [dict(id=c["id"], w=c["w"], hist=c["hist"], groups=[dict(q=g["q"], k=g["k"]) for g in c["groups"]],
+    vf.write_ndjson(cp, [dict(id=c["id"], w=c["w"], hist=c["hist"], groups=[dict(q=g["q"], k=g["k"], ks=g["ks"]) for g in c["groups"]],
                               il=interleaved_for(c, ctx.seed, il_every)) for c in cases])
     ncases = len(cases)
     npicks_pred = sum(g["k"] for c in cases for g in c["groups"])
